@@ -39,8 +39,8 @@ const char* const kNumberGrammar[] = {
 const int kNumberGrammarSize = static_cast<int>(sizeof(kNumberGrammar) / sizeof(kNumberGrammar[0]));
 
 std::string arbitrary_bytes(Ctx& c) {
-  static const int lens[] = {0, 1, 1, 2, 3, 4, 5, 8, 15, 16, 17, 31, 64, 200};
-  size_t n = static_cast<size_t>(lens[c.below(14)]);
+  static const int lens[] = {0, 1, 1, 2, 3, 4, 5, 8, 15, 16, 17, 31, 64, 200, 255, 256, 257, 1000, 5000};
+  size_t n = static_cast<size_t>(lens[c.below(c.below(8) ? 14 : 19)]);
   std::string s;
   std::uint64_t style = c.below(4);
   for (size_t i = 0; i < n; ++i) {
@@ -378,6 +378,19 @@ void execute(const OpEntry& e, std::uint64_t seed, long p0, long p1, int slot, c
     long budgets[] = {0, 1, len0 / 2, len0 > 0 ? len0 - 1 : 0, len0};
     for (long b : budgets) for (int m = 0; m < 3; ++m) e1_sink(b, m, 0);
     e1_sink(len0, 0, 1); e1_sink(len0, 0, 2); e1_sink(len0, 0, 4);
+    {  // a stream with no buffer at all (legal; badbit set), and one with width/fill/flags set by the caller
+      g_phase = "E1-nullbuf";
+      std::ostream nb(nullptr);
+      Outcome r1 = run_once(e, c, seed, p0, p1, &nb);
+      ++st.execs; ++st.fired; ++st.sink_refused;
+      check_outcome(e, r1, false, "sink:nullbuf", st);
+      g_phase = "E1-flags";
+      Scratch s2;
+      s2.os.width(40); s2.os.fill('*'); s2.os.setf(std::ios::left | std::ios::showpos | std::ios::uppercase | std::ios::unitbuf); s2.os.precision(2);
+      Outcome r2 = run_once(e, c, seed, p0, p1, &s2.os);
+      ++st.execs;
+      check_outcome(e, r2, false, "sink:flags", st);
+    }
   } else if (slot_os) {
     g_phase = "E1-slot";
     Outcome r1 = run_once(e, c, seed, p0, p1, slot_os);
